@@ -9,12 +9,16 @@ SPEC = hdr_spec(
          "list; enumeration of crash points is complete per history; non-trivial = at least 8 submissions",
     props_file="C12", extra=spine_scripts(['files']),
     partial_note="the quantifier over crash points is discharged by complete enumeration per history (fault enumeration), the quantifier over histories by generated histories; "
-                 "the theorems give the write order the argument rests on, not the full 'every prefix loads' statement.")
+                 "the full 'every prefix loads and is sound' statement is a theorem for the FIRST Save of a linear chain (C12_first_save_crash_linear: genesis-only chain before the "
+                 "index write, the chain being saved after it); for later Saves/Cleans over existing files and for forests with side branches the theorems give the write order "
+                 "the argument rests on and the enumeration carries the claim.")
 
 META = dict(
-    technique="Lean 4 proof (write-order theorems over the storage-event model, tied to the extracted call order) + exhaustive crash-prefix enumeration compared between code and model",
+    technique="Lean 4 proof (every crash prefix of the first Save of a linear chain loads and is sound; write-order theorems over the storage-event model, tied to the extracted call order) + exhaustive crash-prefix enumeration compared between code and model",
     text="Theorems for every repository state: saveBranches writes one branch file per tracked branch and only then the index naming them; the invalid list is the last write; "
-         "each event touches one key; the stage order of Save and Clean is the extracted one and Clean never writes the index. For every generated history every prefix of every "
+         "each event touches one key; the stage order of Save and Clean is the extracted one and Clean never writes the index. For the first Save of a linear chain (any length) the write sequence is "
+         "main-file writes/removals, branch file, index, invalid list (C12_first_save_sequence) and for EVERY prefix of it Load succeeds and reports either the genesis-only chain "
+         "(index not yet written) or exactly the chain being saved (C12_first_save_crash_linear). For every generated history every prefix of every "
          "Clean/Save write sequence is materialised and loaded by the real code and by the model; the monitor checks load success, linkage, that the tip was accepted, and work against the last completed Save.",
     note=COMMON_NOTE + "Each individual key write is assumed atomic (as the property states). Partial: see evidence.",
 )
